@@ -146,6 +146,23 @@ def gen_run(rng, cfg):
                 else:
                     items, op["mut"] = W.mutate_items(rng, items, fk)
             op["items"] = items
+            if opk == "parse" and not long_inputs and not deep and rng.random() < 0.15:
+                # interleaving on ONE thread: inside this parse (at its k-th token) the
+                # program calls other parsers / generators and comes back
+                inner = []
+                for _ in range(rng.choice([1, 1, 2])):
+                    y = rng.random()
+                    if y < 0.35:
+                        it = list(items)  # the same text: both pass through the same helpers
+                    elif y < 0.6:
+                        it = list(rng.choice(W.STATEFUL_SNIPPETS))
+                    elif y < 0.8:
+                        it = list(rng.choice(CLASH_PROBES))
+                    else:
+                        it = W.ProgGen(rng, actor=i, size=rng.choice([1, 2, 3]), depth=depth, sloppy=sloppy, marks=True).program()
+                    inner.append({"op": rng.choice(["parse", "parse", "gen"]), "filename": rng.choice(["inner%d.c" % i, "", op["filename"]]), "items": it})
+                ntok = max(2, len(W.cheap_tokens("\n".join(items))))
+                op["nest"] = {"at": rng.randrange(1, ntok + 2), "ops": inner}
             ops.append(op)
         a = {"reuse": rng.random() < 0.25, "ops": ops, "kind": kind}
         if kind in ("parse", "mixed", "roundtrip") and not long_inputs and not deep and rng.random() < 0.25:
@@ -163,13 +180,17 @@ def gen_run(rng, cfg):
     # crash-one: an asynchronous abort inside one actor while the others go on
     if faulty and rng.random() < 0.6:
         victim = rng.randrange(n)
-        cands = [op for op in actors[victim]["ops"] if op["op"] in ("parse", "roundtrip", "lex", "parse_file")]
+        cands = [op for op in actors[victim]["ops"] if op["op"] in ("parse", "roundtrip", "lex", "parse_file", "gen", "visit")]
         if cands:
             op = rng.choice(cands)
             text = "\n".join(op["items"])
             ntok = max(2, len(W.cheap_tokens(text)))
             fk = rng.choice(["seam-abort", "line-abort"])
-            op["fault"] = make_abort_fault(rng, fk, ntok, text)
+            if op["op"] in ("gen", "visit"):
+                # a generator / visitor dies in the middle of a visit (the object is thrown away)
+                op["fault"] = {"kind": "line-abort", "at": rng.randrange(1, rng.choice([30, 150, 600, 3000])), "exc": rng.choice(EXC_KINDS)}
+            else:
+                op["fault"] = make_abort_fault(rng, fk, ntok, text)
             op["fault"]["role"] = "crash-one"
     # markers and their validation against the other actors' own inputs
     for i, a in enumerate(actors):
@@ -220,6 +241,7 @@ def solo_spec(spec, i):
         "actors": [a],
         "check_fresh": False,
         "probes": False,
+        "nest_sequential": True,
     }
 
 
@@ -230,6 +252,11 @@ def compared(r, s):
     if ro["k"] in ("abort", "rec") or so["k"] in ("abort", "rec"):
         return False
     return True
+
+
+def _short_text(t, n=300):
+    t = t or ""
+    return t if len(t) <= n else t[:n] + "..."
 
 
 def judge(spec, result, solos):
@@ -245,6 +272,10 @@ def judge(spec, result, solos):
                 viols.append({"kind": "diverge:ast-mutated-later", "actor": i, "op": k, "detail": "the AST returned by this operation was modified afterwards (not so when the actor runs alone)"})
             if r.get("shared_nodes"):
                 viols.append({"kind": "shared-nodes", "actor": i, "op": k, "detail": "%d node objects shared with an AST returned earlier by another instance" % r["shared_nodes"]})
+            rn, sn = r.get("nest_out"), s.get("nest_out")
+            if rn is not None and sn is not None and not any(x[0] == "rec" for x in rn + sn) and rn != sn:
+                j = next((j for j, (x, y) in enumerate(zip(rn, sn)) if x != y), 0)
+                viols.append({"kind": "diverge:nested", "actor": i, "op": k, "detail": "a call made on the same thread from inside this parse (inner call %d) gives a different result from the same call made after it" % j, "got": _short_text(rn[j][1]), "want": _short_text(sn[j][1])})
             if not compared(r, s):
                 continue
             if not same_outcome(r["out"], s["out"]):
@@ -298,6 +329,10 @@ def summarise(spec, result, info):
                 fired[fk] = fired.get(fk, 0) + 1
             if r.get("fault_fired") and (op.get("fault") or {}).get("role") == "crash-one":
                 fired["crash-one"] = fired.get("crash-one", 0) + 1
+                if op["op"] in ("gen", "visit"):
+                    fired["crash-one:mid-visit"] = fired.get("crash-one:mid-visit", 0) + 1
+            if op.get("nest") and r.get("nest_out") is not None and not r.get("nest_sequential"):
+                fired["same-thread-nested-call"] = fired.get("same-thread-nested-call", 0) + 1
     pr = dict(result.get("probes") or {})
     pr.update(outcomes)
     pol = spec["policy"]["kind"]
